@@ -734,7 +734,9 @@ func c10ObjectPool() []*c10Prog {
 	}
 }
 
-func c10FullPool() []*c10Prog { return append(append(append(append(append(c10Pool(), c10MapModelledPool()...), c10StageModelledPool()...), c10FailingPool()...), c10StatefulPool()...), c10ObjectPool()...) }
+func c10FullPool() []*c10Prog { return append(c10FullPool0(), c10FirstUsePool()...) }
+
+func c10FullPool0() []*c10Prog { return append(append(append(append(append(c10Pool(), c10MapModelledPool()...), c10StageModelledPool()...), c10FailingPool()...), c10StatefulPool()...), c10ObjectPool()...) }
 
 
 // lazy constants whose MATERIALISATION fails at an element k > 0 (List.Eval must leave the object untouched), and
